@@ -120,7 +120,8 @@ def run_case(ctx, seed, idx, tier):
     keys = sorted(fp)
     subset = [k for k in keys if rng.random() < 0.5] or [rng.choice(keys)]
     styles = {k: rng.choice(['inferred', 'explicit', 'variadic']) for k in subset}
-    yvs = {k: rng.random() < 0.5 for k in subset}
+    # the yielded value is irrelevant: True, False, and what a bare `yield` gives
+    yvs = {k: rng.choice([True, False, False, None, 0, 1]) for k in subset}
     order = rng.choice(['register_first', 'load_first_full', 'load_first_stripped'])
     if order == 'load_first_full':
         # a variadic registration is only used when no definition for the exact arity exists:
@@ -250,7 +251,7 @@ def run_case(ctx, seed, idx, tier):
         g1, s1, _ = real.answers(yp.query(qname, rargs), robs, diff.MAXANS, diff.engine_bound(refa.steps))
         for k in subset:
             rows = [tuple(h[2]) if h[0] == 'c' else () for h in fp[k]]
-            f, ar = make_pypred(real, yp, k[0], k[1], rows, styles[k], not yvs[k], log2, f0)
+            f, ar = make_pypred(real, yp, k[0], k[1], rows, styles[k], rng.choice([True, False, None]), log2, f0)
             yp.register_function(k[0], f, arity=ar) if ar is not None else yp.register_function(k[0], f)
         g2, s2, _ = real.answers(yp.query(qname, rargs), robs, diff.MAXANS, diff.engine_bound(refa.steps))
         if (g2, s2) != (g1, s1):
@@ -262,7 +263,10 @@ def run_case(ctx, seed, idx, tier):
     # exception identity
     total = fault['events']
     if total and rng.random() < 0.5:
-        exc = Boom('x')
+        # any exception type: the user's own classes and the builtin ones an ordinary bug produces
+        exc = rng.choice([Boom, Boom, TypeError, ValueError, KeyError, IndexError, AttributeError, ZeroDivisionError, AssertionError,
+                          OSError, RuntimeError, LookupError, NameError, UnicodeError])('x')
+        c['exc_' + type(exc).__name__] = 1
         f2 = {'events': 0, 'at': rng.randrange(1, total + 1), 'exc': exc}
         yp = mk_engine(True, f2, [])
         vmap = {}
@@ -279,12 +283,13 @@ def run_case(ctx, seed, idx, tier):
                         break
             finally:
                 real.clock.stop()
-        except Boom as e:
-            caught = e
         except StepBudget:
             return viol('nontermination_with_raising_predicate', {'at': f2['at']})
         except Exception as e:
-            return viol('exception_changed', {'raised': 'Boom', 'caught': type(e).__name__ + ': ' + str(e)[:100], 'at': f2['at']})
+            if e is exc:
+                caught = e
+            else:
+                return viol('exception_changed', {'raised': type(exc).__name__, 'caught': type(e).__name__ + ': ' + str(e)[:100], 'at': f2['at']})
         if f2['events'] >= f2['at']:
             if caught is None:
                 return viol('exception_swallowed', {'at': f2['at'], 'answers': len(got)})
